@@ -52,9 +52,6 @@ pub open spec fn skipped(name: Seq<char>) -> bool {
     name == "draw"@ || name == "chain"@
 }
 
-pub open spec fn strs(v: Seq<String>) -> Seq<Seq<char>> {
-    Seq::new(v.len(), |i: int| v[i]@)
-}
 
 /// sizes of the dimensions `dims` according to the dimension table `sizes` (`as usize` as in the code)
 pub open spec fn ext_shape(sizes: Map<Seq<char>, u64>, dims: Seq<Seq<char>>) -> Seq<usize> {
@@ -95,7 +92,7 @@ pub open spec fn no_reserved(sch: Seq<VarDecl>) -> bool {
 // ---- facade vocabulary (A-schema): what `*_dims_all` / `*_types` return for a schema
 pub open spec fn dims_are(v: Seq<(String, Vec<String>)>, sch: Seq<VarDecl>) -> bool {
     &&& v.len() == sch.len()
-    &&& forall|i: int| 0 <= i < v.len() ==> (#[trigger] v[i]).0@ == sch[i].name && strs(v[i].1@) == sch[i].dims
+    &&& forall|i: int| 0 <= i < v.len() ==> (#[trigger] v[i]).0@ == sch[i].name && strs_are(v[i].1@, sch[i].dims)
 }
 pub open spec fn types_are(v: Seq<(String, ItemType)>, sch: Seq<VarDecl>) -> bool {
     &&& v.len() == sch.len()
@@ -106,7 +103,7 @@ pub open spec fn zipped_is(all: Seq<((String, Vec<String>), (String, ItemType))>
     &&& all.len() == sch.len()
     &&& forall|i: int| 0 <= i < all.len() ==> {
         &&& (#[trigger] all[i]).0.0@ == sch[i].name
-        &&& strs(all[i].0.1@) == sch[i].dims
+        &&& strs_are(all[i].0.1@, sch[i].dims)
         &&& all[i].1.0@ == sch[i].name
         &&& all[i].1.1 == sch[i].ty
     }
@@ -139,15 +136,6 @@ pub open spec fn nt_post<M: Math, S: Settings>(settings: &S, math: &M, r: Result
 
 // ---- lemmas -----------------------------------------------------------------------------
 
-// [C14.4 C14.5]
-pub proof fn lemma_decl_take(sch: Seq<VarDecl>, i: int, skip: bool, n_chains: usize, total: usize, sizes: Map<Seq<char>, u64>)
-    requires 0 <= i < sch.len()
-    ensures decl_arrays(sch.take(i + 1), skip, n_chains, total, sizes)
-        == decl_step(decl_arrays(sch.take(i), skip, n_chains, total, sizes), sch[i], skip, n_chains, total, sizes)
-{
-    assert(sch.take(i + 1).drop_last() =~= sch.take(i));
-    assert(sch.take(i + 1).last() == sch[i]);
-}
 
 // [C14.4]
 pub proof fn lemma_no_reserved(sch: Seq<VarDecl>, n_chains: usize, total: usize, sizes: Map<Seq<char>, u64>)
@@ -165,17 +153,10 @@ pub proof fn lemma_no_reserved(sch: Seq<VarDecl>, n_chains: usize, total: usize,
     }
 }
 
-// [C14.4 C14.5]
-pub proof fn lemma_ext_shape_take(sizes: Map<Seq<char>, u64>, dims: Seq<Seq<char>>, k: int)
-    requires 0 <= k < dims.len()
-    ensures ext_shape(sizes, dims.take(k + 1)) == ext_shape(sizes, dims.take(k)).push(sizes[dims[k]] as usize)
-{
-    assert(ext_shape(sizes, dims.take(k + 1)) =~= ext_shape(sizes, dims.take(k)).push(sizes[dims[k]] as usize));
-}
 
 // [C14.4 C14.5]
-pub broadcast proof fn lemma_arrs_insert(m: Map<Seq<char>, NdarrayValue>, k: Seq<char>, v: NdarrayValue)
-    ensures #[trigger] arrs_m(m.insert(k, v)) == arrs_m(m).insert(k, nv_view(v))
+pub proof fn lemma_arrs_insert(m: Map<Seq<char>, NdarrayValue>, k: Seq<char>, v: NdarrayValue)
+    ensures arrs_m(m.insert(k, v)) == arrs_m(m).insert(k, nv_view(v))
 {
     assert(arrs_m(m.insert(k, v)) =~= arrs_m(m).insert(k, nv_view(v)));
 }
@@ -232,27 +213,161 @@ pub proof fn lemma_decl_arrays_exact(sch: Seq<VarDecl>, skip: bool, n_chains: us
         }
     }
 }
+// ---- prefix forms used by the loop invariants of new_trace (k = number of schema entries / dims consumed);
+// the broadcast lemmas below unfold them one step, so the invariants need no text-anchored proof hints
+
+/// arrays declared by the first k schema entries
+pub open spec fn decl_prefix(sch: Seq<VarDecl>, k: int, skip: bool, n_chains: usize, total: usize, sizes: Map<Seq<char>, u64>) -> Arrs {
+    decl_arrays(sch.take(k), skip, n_chains, total, sizes)
+}
+/// shape built from the first k extra dimensions
+pub open spec fn shape_prefix(n_chains: usize, total: usize, sizes: Map<Seq<char>, u64>, dims: Seq<Seq<char>>, k: int) -> Seq<usize> {
+    seq![n_chains, total] + ext_shape(sizes, dims.take(k))
+}
+/// the first k extra dimensions have a size
+pub open spec fn known_prefix(sizes: Map<Seq<char>, u64>, dims: Seq<Seq<char>>, k: int) -> bool {
+    dims_known(sizes, dims.take(k))
+}
+/// the items of the `for dim in extra_dims` iterator are the declared dimension names
+pub open spec fn strs_are(all: Seq<String>, dims: Seq<Seq<char>>) -> bool {
+    &&& all.len() == dims.len()
+    &&& forall|j: int| 0 <= j < all.len() ==> (#[trigger] all[j])@ == dims[j]
+}
+
+/// the step / end facts of `decl_prefix` for every k (carried as a loop invariant: Verus loop bodies do not see
+/// `broadcast use` of the enclosing function, and a module-level `broadcast use` of a lemma of the same module is cyclic)
+pub open spec fn decl_steps(sch: Seq<VarDecl>, skip: bool, n_chains: usize, total: usize, sizes: Map<Seq<char>, u64>) -> bool {
+    forall|k: int| {
+        let p = #[trigger] decl_prefix(sch, k, skip, n_chains, total, sizes);
+        &&& k == 0 ==> p == Map::<Seq<char>, ArrSpec>::empty()
+        &&& 0 < k <= sch.len() ==> p == decl_step(decl_prefix(sch, k - 1, skip, n_chains, total, sizes), sch[k - 1], skip, n_chains, total, sizes)
+        &&& k == sch.len() ==> p == decl_arrays(sch, skip, n_chains, total, sizes)
+    }
+}
+pub open spec fn shape_steps(n_chains: usize, total: usize, sizes: Map<Seq<char>, u64>) -> bool {
+    forall|dims: Seq<Seq<char>>, k: int| {
+        let p = #[trigger] shape_prefix(n_chains, total, sizes, dims, k);
+        &&& k == 0 ==> p == seq![n_chains, total]
+        &&& 0 < k <= dims.len() ==> p == shape_prefix(n_chains, total, sizes, dims, k - 1).push(sizes[dims[k - 1]] as usize)
+        &&& k == dims.len() ==> p == seq![n_chains, total] + ext_shape(sizes, dims)
+    }
+}
+pub open spec fn known_steps(sizes: Map<Seq<char>, u64>) -> bool {
+    forall|dims: Seq<Seq<char>>, k: int| {
+        let p = #[trigger] known_prefix(sizes, dims, k);
+        &&& k == 0 ==> p
+        &&& 0 < k <= dims.len() ==> p == (known_prefix(sizes, dims, k - 1) && sizes.contains_key(dims[k - 1]))
+        &&& k == dims.len() ==> p == dims_known(sizes, dims)
+    }
+}
+pub open spec fn arrs_steps() -> bool {
+    forall|m: Map<Seq<char>, NdarrayValue>, k: Seq<char>, v: NdarrayValue| #[trigger] arrs_m(m.insert(k, v)) == arrs_m(m).insert(k, nv_view(v))
+}
+/// everything the loop invariants of new_trace need about the prefix forms
+pub open spec fn nt_steps<M: Math, S: Settings>(settings: &S, math: &M) -> bool {
+    let n = settings.num_chains_spec();
+    let total = nt_total(settings) as usize;
+    let sizes = math.dim_sizes_spec();
+    &&& decl_steps(settings.stat_schema(math), true, n, total, sizes)
+    &&& decl_steps(settings.data_schema(math), false, n, total, sizes)
+    &&& shape_steps(n, total, sizes)
+    &&& known_steps(sizes)
+    &&& arrs_steps()
+}
+
+// [C14.4 C14.5 C14.6]
+pub proof fn lemma_nt_steps<M: Math, S: Settings>(settings: &S, math: &M)
+    ensures nt_steps(settings, math)
+{
+    let n = settings.num_chains_spec();
+    let total = nt_total(settings) as usize;
+    let sizes = math.dim_sizes_spec();
+    lemma_decl_steps(settings.stat_schema(math), true, n, total, sizes);
+    lemma_decl_steps(settings.data_schema(math), false, n, total, sizes);
+    lemma_shape_steps(n, total, sizes);
+    lemma_known_steps(sizes);
+    assert forall|m: Map<Seq<char>, NdarrayValue>, k: Seq<char>, v: NdarrayValue| #[trigger] arrs_m(m.insert(k, v)) == arrs_m(m).insert(k, nv_view(v)) by {
+        lemma_arrs_insert(m, k, v);
+    }
+}
+
+// [C14.4 C14.5]
+pub proof fn lemma_decl_steps(sch: Seq<VarDecl>, skip: bool, n_chains: usize, total: usize, sizes: Map<Seq<char>, u64>)
+    ensures decl_steps(sch, skip, n_chains, total, sizes)
+{
+    assert forall|k: int| {
+        let p = #[trigger] decl_prefix(sch, k, skip, n_chains, total, sizes);
+        &&& k == 0 ==> p == Map::<Seq<char>, ArrSpec>::empty()
+        &&& 0 < k <= sch.len() ==> p == decl_step(decl_prefix(sch, k - 1, skip, n_chains, total, sizes), sch[k - 1], skip, n_chains, total, sizes)
+        &&& k == sch.len() ==> p == decl_arrays(sch, skip, n_chains, total, sizes)
+    } by {
+        if 0 < k <= sch.len() {
+            assert(sch.take(k).drop_last() =~= sch.take(k - 1));
+            assert(sch.take(k).last() == sch[k - 1]);
+        }
+        if k == sch.len() {
+            assert(sch.take(k) =~= sch);
+        }
+    }
+}
+
+// [C14.4 C14.5]
+pub proof fn lemma_shape_steps(n_chains: usize, total: usize, sizes: Map<Seq<char>, u64>)
+    ensures shape_steps(n_chains, total, sizes)
+{
+    assert forall|dims: Seq<Seq<char>>, k: int| {
+        let p = #[trigger] shape_prefix(n_chains, total, sizes, dims, k);
+        &&& k == 0 ==> p == seq![n_chains, total]
+        &&& 0 < k <= dims.len() ==> p == shape_prefix(n_chains, total, sizes, dims, k - 1).push(sizes[dims[k - 1]] as usize)
+        &&& k == dims.len() ==> p == seq![n_chains, total] + ext_shape(sizes, dims)
+    } by {
+        if k == 0 {
+            assert(shape_prefix(n_chains, total, sizes, dims, k) =~= seq![n_chains, total]);
+        }
+        if 0 < k <= dims.len() {
+            assert(shape_prefix(n_chains, total, sizes, dims, k)
+                =~= shape_prefix(n_chains, total, sizes, dims, k - 1).push(sizes[dims[k - 1]] as usize));
+        }
+        if k == dims.len() {
+            assert(dims.take(k) =~= dims);
+        }
+    }
+}
+
+// [C14.6]
+pub proof fn lemma_known_steps(sizes: Map<Seq<char>, u64>)
+    ensures known_steps(sizes)
+{
+    assert forall|dims: Seq<Seq<char>>, k: int| {
+        let p = #[trigger] known_prefix(sizes, dims, k);
+        &&& k == 0 ==> p
+        &&& 0 < k <= dims.len() ==> p == (known_prefix(sizes, dims, k - 1) && sizes.contains_key(dims[k - 1]))
+        &&& k == dims.len() ==> p == dims_known(sizes, dims)
+    } by {
+        if 0 < k <= dims.len() {
+            let t = dims.take(k);
+            let u = dims.take(k - 1);
+            if known_prefix(sizes, dims, k - 1) && sizes.contains_key(dims[k - 1]) {
+                assert forall|j: int| 0 <= j < t.len() implies sizes.contains_key(#[trigger] t[j]) by {
+                    if j < k - 1 { assert(u[j] == t[j]); }
+                }
+            }
+            if known_prefix(sizes, dims, k) {
+                assert forall|j: int| 0 <= j < u.len() implies sizes.contains_key(#[trigger] u[j]) by {
+                    assert(t[j] == u[j]);
+                }
+                assert(t[k - 1] == dims[k - 1]);
+            }
+        }
+        if k == dims.len() {
+            assert(dims.take(k) =~= dims);
+        }
+    }
+}
+
 pub open spec fn var_named(sch: Seq<VarDecl>, i: int, k: Seq<char>) -> bool { sch[i].name == k }
 pub open spec fn last_decl(sch: Seq<VarDecl>, i: int) -> bool {
     forall|j: int| i < j < sch.len() ==> sch[j].name != sch[i].name
 }
 
-// [C14.4 C14.5]
-pub proof fn lemma_shape_push(a: usize, b: usize, e: Seq<usize>, x: usize)
-    ensures (seq![a, b] + e).push(x) == seq![a, b] + e.push(x)
-{
-    assert((seq![a, b] + e).push(x) =~= seq![a, b] + e.push(x));
-}
 
-// [C14.6]
-pub proof fn lemma_dims_known_take(sizes: Map<Seq<char>, u64>, dims: Seq<Seq<char>>, k: int)
-    requires 0 <= k < dims.len(), dims_known(sizes, dims.take(k)), sizes.contains_key(dims[k])
-    ensures dims_known(sizes, dims.take(k + 1))
-{
-    let t = dims.take(k + 1);
-    assert forall|j: int| 0 <= j < t.len() implies sizes.contains_key(#[trigger] t[j]) by {
-        if j < k {
-            assert(dims.take(k)[j] == t[j]);
-        }
-    }
-}
